@@ -656,6 +656,20 @@ def run(tier, replay=None):
             comp, ntext = neutral[edited]
             if judge(kind, base_res[text], nres[ntext] if ntext != text else base_res[text]) is None:
                 case_text = case_of(comp[0], comp[1], bad, text, edited)
+        if kind == "combo" and comps and ck.match_finding(case_text) is None:
+            # a failing combination that no single known component explains: shrink it to a minimal set of components
+            # that still fails together (greedy, one transpile per step) and name the case after that set
+            keep = list(comps)
+            for c in list(comps):
+                trial = [x for x in keep if x is not c]
+                if not trial:
+                    continue
+                ttext = apply_ops(progs[text], [op for x in trial for op in x[2]])
+                tres = transpile_all([ttext])
+                if judge(kind, base_res[text], tres[ttext]) is not None:
+                    keep = trial
+            culprit = ",".join(sorted(f"{c[0]}@{c[1]}" for c in keep))
+            case_text = f"EDIT:combo CULPRIT:{culprit}\nWHAT:{bad}\nBASE:{text}\nEDITED:{edited}"
         key = (kind, ctx if kind != "combo" else "", bad[:30])
         seen_viol[key] = seen_viol.get(key, 0) + 1
         f = ck.match_finding(case_text)
